@@ -228,6 +228,35 @@ fn hostile_stmt(rng: &mut Rng, i: usize) -> Card {
 
 pub fn gen_hostile(rng: &mut Rng) -> Module {
     let mut main = Function::default();
+    // parameters nobody passes: the entry function declares some (nothing is on the stack for
+    // them), or a function is called with fewer arguments than it declares; the parameter is read,
+    // assigned and captured by a closure
+    let short_args = rng.below(5);
+    if short_args == 0 {
+        let k = 1 + rng.usize(3);
+        for j in 0..k {
+            main.arguments.push(format!("mp{j}"));
+        }
+        let which = format!("mp{}", rng.usize(k));
+        match rng.below(3) {
+            0 => main.cards.push(Card::set_global_var("mp_read", Card::read_var(which))),
+            1 => main.cards.push(Card::set_var(which, Card::scalar_int(3))),
+            _ => main.cards.push(Card::set_global_var(
+                "mp_capt",
+                Card::dynamic_call(
+                    c(CardBody::Closure(Box::new(Function::default().with_cards(vec![
+                        Card::set_var(which.clone(), Card::string_card("written through a capture")),
+                        Card::return_card(Card::read_var(which)),
+                    ])))),
+                    vec![],
+                ),
+            )),
+        }
+    } else if short_args == 1 {
+        let given = rng.usize(3);
+        let args: Vec<Card> = (0..given).map(|_| any_value(rng)).collect();
+        main.cards.push(Card::set_global_var("short_call", Card::call_function("capt3", args)));
+    }
     // a self-referential table and an ordinary one
     main.cards.push(Card::set_var("cyc", c(CardBody::CreateTable)));
     main.cards.push(Card::set_property(Card::read_var("cyc"), Card::read_var("cyc"), Card::string_card("me")));
@@ -291,6 +320,25 @@ pub fn gen_hostile(rng: &mut Rng) -> Module {
                 c(CardBody::AppendTable(bin(Card::scalar_int(7), Card::read_var("k")))),
             ))),
             Card::return_card(Card::read_var("v")),
+        ]),
+    ));
+    // capt3(a, b, c): captures its parameters in a closure, writes and reads them through it
+    m.functions.push((
+        "capt3".into(),
+        Function::default().with_arg("a").with_arg("b").with_arg("c").with_cards(vec![
+            Card::set_var("own", Card::string_card("own local")),
+            Card::set_var(
+                "r",
+                Card::dynamic_call(
+                    c(CardBody::Closure(Box::new(Function::default().with_cards(vec![
+                        Card::set_var("c", Card::read_var("a")),
+                        Card::set_var("own", Card::read_var("b")),
+                        Card::return_card(Card::read_var("c")),
+                    ])))),
+                    vec![],
+                ),
+            ),
+            Card::return_card(Card::read_var("own")),
         ]),
     ));
     // deep(n): recursion n levels, each level keeps a local string alive
